@@ -9,7 +9,7 @@ from concurrent.futures import ThreadPoolExecutor
 
 from . import core
 
-ALPHABETS = ['A1', 'A2', 'A3', 'A4', 'A5', 'A6', 'A7', 'A8', 'A9', 'B1', 'B2', 'B3', 'B4']
+ALPHABETS = ['A1', 'A2', 'A3', 'A4', 'A5', 'A6', 'A7', 'A8', 'A9', 'B1', 'B2', 'B3', 'B4', 'H1', 'H2', 'H3']
 
 # classes of input on which the implementation is recorded to deviate (known_findings.json); decided by the specification (tags)
 FINDING_TAGS = {'lazy-after-nonpara', 'lazy-after-indented-quote-content', 'lazy-line-looks-like-setext-underline', 'setext-in-quote',
